@@ -26,7 +26,7 @@ import functools
 import numpy as np
 import os.path as osp
 import schedula as sh
-from ..ranges import Ranges
+from ..ranges import Ranges, _intersect
 from ..errors import InvalidRangeName
 from ..cell import Cell, RangesAssembler, Ref, CellWrapper, InvRangesAssembler
 from ..tokens.operand import XlError, _re_sheet_id, _re_build_id
@@ -357,6 +357,10 @@ class ExcelModel:
             references = self.references
             formula_ranges = self.formula_ranges(context)
             external_links = self.external_links(context)
+            for fr in formula_ranges:  # Array formulas spilling into the range.
+                fr = fr.ranges[0]
+                if fr['name'] not in done and _intersect(rng, fr):
+                    stack.append(fr['name'])
 
             _name = '%s'
             if 'sheet_id' in rng:
